@@ -15,6 +15,9 @@
 #ifndef NOPS
 #define NOPS 24
 #endif
+#ifndef NOPS_TX
+#define NOPS_TX 24
+#endif
 #ifndef SCHED
 #define SCHED 0
 #endif
@@ -59,7 +62,7 @@ extern "C" void harness(void)
 		be64(d + OFF_MECH, A_MECH); be64(d + OFF_MECH + 8, 5); be64(d + OFF_MECH + 16, 1); be64(d + OFF_MECH + 24, mech);
 		vio.f[0].exists = true; vio.f[0].size = FULL; vio.f[0].flushed = FULL; vio.f[1].exists = true;
 	}
-#if OP == 1 || OP == 2 || OP == 5
+#if OP == 1 || OP == 2 || OP == 5 || OP == 6 || OP == 7
 	static ObjectFile w(NULL, "A", 0077, "B", false);      // the process that is going to rewrite the object has it loaded
 	vassert(w.valid && w.attributeExists(A_LABEL) && w.attributeExists(A_TOKEN) && w.attributeExists(A_MECH));
 #endif
@@ -152,6 +155,41 @@ extern "C" void harness(void)
 			vassert(a.isMechanismTypeSetAttribute() && a.getMechanismTypeSetValue().size() == 1 && a.getMechanismTypeSetValue().count(mech) == 1);
 		}
 	}
+	vreach();
+#elif OP == 6
+	// ---- C05 / C09: an attribute TRANSACTION (what every PKCS#11 object-management call uses): two attributes are changed, nothing reaches the
+	// disk before the commit; the VIO_AT-th file operation of commitTransaction fails (VIO_AT >= NOPS_TX: no fault): commit reports success
+	// only if BOTH new values are on the (model) disk and flushed, and another instance sees them
+	unsigned char oldimg[FULL]; for (int i = 0; i < FULL; i++) oldimg[i] = vio.f[0].data[i];
+	vassert(w.startTransaction(OSObject::ReadWrite));
+	vassert(w.setAttribute(A_LABEL, OSAttribute(bs2(n0, n1))) && w.setAttribute(A_TOKEN, OSAttribute(!tok)));
+	for (int i = 0; i < FULL; i++) vassert(vio.f[0].data[i] == oldimg[i]);          // uncommitted changes are not on the disk
+	vassert(vio.f[0].size == FULL);
+	unsigned base = vio.ops;
+	if (VIO_AT < NOPS_TX) { vio.failAt = base + VIO_AT; vio_arm_fail = true; }
+	bool ok = w.commitTransaction();
+	unsigned used = vio.ops - base;
+	if (VIO_AT < NOPS_TX) vassert(vio.failures == 1); else { vassert(ok && used == NOPS_TX); vreach(); }
+	if (ok)
+	{
+		vio_arm_fail = false;
+		static ObjectFile rd(NULL, "A", 0077, "B", false);
+		vassert(rd.valid);
+		ByteString v = rd.getByteStringValue(A_LABEL);
+		vassert(v.size() == 2 && v[0] == n0 && v[1] == n1 && rd.getBooleanValue(A_TOKEN, tok) == !tok && rd.attributeExists(A_MECH));
+		vassert(vio.f[0].flushed == vio.f[0].size);
+	}
+	vreach();
+#elif OP == 7
+	// ---- C09: an aborted transaction leaves the object - in memory and on disk - exactly as it was
+	unsigned char oldimg[FULL]; for (int i = 0; i < FULL; i++) oldimg[i] = vio.f[0].data[i];
+	vassert(w.startTransaction(OSObject::ReadWrite));
+	vassert(w.setAttribute(A_LABEL, OSAttribute(bs2(n0, n1))) && w.setAttribute(A_TOKEN, OSAttribute(!tok)));
+	vassert(w.abortTransaction());
+	for (int i = 0; i < FULL; i++) vassert(vio.f[0].data[i] == oldimg[i]);
+	vassert(vio.f[0].size == FULL && w.isValid());
+	{ ByteString v = w.getByteStringValue(A_LABEL); vassert(v.size() == 2 && v[0] == l0 && v[1] == l1); vassert(w.getBooleanValue(A_TOKEN, !tok) == tok); }
+	vassert(w.startTransaction(OSObject::ReadWrite));            // and a new transaction can be started
 	vreach();
 #elif OP == 3
 	const size_t cut = CUT;          // the truncation length is concrete per obligation (EOF position concrete), all values symbolic; the runner instantiates the cuts
